@@ -95,6 +95,33 @@ def Chained : List (Transition O A R) → Prop
   | t₁ :: t₂ :: rest => t₂.observation = t₁.nextObservation ∧ Chained (t₂ :: rest)
   | _ => True
 
+/-! ## batches -/
+
+/-- stacking member states of the wrappers into the batched layout -/
+def BEpSt.stack (l : List (EpSt P (List R) X R)) : BEpSt P X R :=
+  ⟨BSt.stack (l.map (·.st)), l.map (·.steps), l.map (·.truncation)⟩
+
+def BArSt.stack (l : List (ArSt P (List R) X R)) : BArSt P X R :=
+  ⟨BEpSt.stack (l.map (·.ep)), l.map (·.firstPs), l.map (·.firstObs)⟩
+
+def BEvSt.stack (l : List (EvSt P (List R) X R)) : BEvSt P X R :=
+  ⟨BArSt.stack (l.map (·.ar)), l.map (·.mReward), l.map (·.emReward), l.map (·.emMetrics),
+   l.map (·.active), l.map (·.episodeSteps)⟩
+
+section batches
+variable [Zero R] [One R] [Add R] [Sub R] [NatCast R] [LE R] [DecidableLE R] [DecidableEq R]
+
+/-- every member run on its own: the single-member model mapped over the batch -/
+def memberRuns (env : BEnv K P X R A) (L r : Nat) (ks : List K) (hist : List (List A)) :
+    List (ArSt P (List R) X R) :=
+  hist.foldl (fun l as => List.zipWith (arStep env L r) l as) (ks.map (arReset env))
+
+def memberEvRuns [Mul R] (env : BEnv K P X R A) (L r : Nat) (ks : List K) (hist : List (List A)) :
+    List (EvSt P (List R) X R) :=
+  hist.foldl (fun l as => List.zipWith (evStep env L r) l as) (ks.map (evReset env))
+
+end batches
+
 /-! ## episode log -/
 
 /-- one wrapped step as the inner environment produced it: the `(reward, done)` of its sub-steps -/
@@ -109,6 +136,11 @@ structure StepOut (R : Type) where
   steps : Nat
   done : R
   truncation : R
+
+/-- what a wrapped state reports, as scalars -/
+def ArSt.report (s : ArSt P O X R) : R × R × R × R := (s.reward, s.steps, s.done, s.truncation)
+def StepOut.toR [NatCast R] (o : StepOut R) : R × R × R × R :=
+  (o.reward, (o.steps : R), o.done, o.truncation)
 
 section log
 variable [Zero R] [One R] [Add R] [Sub R] [DecidableEq R]
@@ -134,6 +166,13 @@ def episodeLogAux (L r : Nat) : Nat → List R → List (Chunk R) → List (List
     else episodeLogAux L r (k + 1) cur' cs
 
 def episodeLog (L r : Nat) (cs : List (Chunk R)) : List (List R) := episodeLogAux L r 0 [] cs
+
+/-- the sub-step rewards grouped into episodes by *observed* done flags (one per wrapped step) -/
+def splitByDone : List R → List R → List (Chunk R) → List (List R)
+  | cur, d :: ds, c :: cs =>
+    if d = 0 then splitByDone (cur ++ c.map (·.1)) ds cs
+    else (cur ++ c.map (·.1)) :: splitByDone [] ds cs
+  | cur, _, _ => if cur.isEmpty then [] else [cur]
 
 end log
 
